@@ -1575,6 +1575,14 @@ class TermAnalysis(Analysis):
                 t = ("call", t[1], (kw.pop("bytes"), kw.pop("byteorder")), tuple(sorted(kw.items())))
             if dict(t[3]).get("signed") == const(False):
                 t = ("call", t[1], t[2], tuple(kv for kv in t[3] if kv[0] != "signed"))
+        if t[0] == "call" and t[1][0] == "meth" and t[1][2] == "to_bytes" and is_const(t[1][1]) and isinstance(t[1][1][1], int) and not isinstance(t[1][1][1], bool) \
+                and 1 <= len(t[2]) <= 2 and all(is_const(a_) for a_ in t[2]) and all(is_const(v_) for _k, v_ in t[3]):
+            # <constant>.to_bytes(n, order): the bytes themselves (a defaulted field such as `message_id=0`)
+            try:
+                kw_ = {k_: v_[1] for k_, v_ in t[3]}
+                return const(t[1][1][1].to_bytes(*[a_[1] for a_ in t[2]], **kw_))
+            except (TypeError, ValueError, OverflowError):
+                pass
         if t[0] == "call" and t[1][0] == "func" and t[1][1] in self.prog.funcs and not self.prog.is_known(t[1][1]):
             r = self.inline(e, t, st)
             if r is not None:
@@ -2204,8 +2212,8 @@ def unsupplied_switches(prog: Program, fn: FuncInfo) -> Dict[str, Term]:
     pos = a.posonlyargs + a.args
     cands = {}
     for p_, d in list(zip(pos[len(pos) - len(a.defaults):], a.defaults)) + [(p_, d) for p_, d in zip(a.kwonlyargs, a.kw_defaults) if d is not None]:
-        if isinstance(d, ast.Constant) and (d.value is None or d.value is False):
-            cands[p_.arg] = ("const", d.value)
+        if isinstance(d, ast.Constant) and (d.value is None or isinstance(d.value, (bool, int, str, bytes))):
+            cands[p_.arg] = ("const", d.value)          # (any constant default nobody in the package overrides: None / False switches, `message_id=0`, ...)
     if not cands or fn.name.startswith("__"):
         return cache[fn.qual]
     pos_names = [x.arg for x in pos]
@@ -2221,6 +2229,8 @@ def unsupplied_switches(prog: Program, fn: FuncInfo) -> Dict[str, Term]:
         return isinstance(arg, ast.Name) and caller is not None and caller.qual != fn.qual and p_ in cands \
             and unsupplied_switches(prog, caller).get(arg.id) == cands[p_]
     for m in prog.modules.values():
+        if m.is_test:
+            continue          # (what the package's own code supplies: a test exercising the optional parameter is not a caller)
         for n in ast.walk(m.tree):
             if not isinstance(n, ast.Call):
                 continue
